@@ -17,6 +17,8 @@ import (
 
 func init() {
 	generators["c19"] = genC19
+	generators["c19hist"] = genC19Hist
+	generators["c20shared"] = genC20Shared
 	generators["c20"] = genC20
 	generators["c20k3"] = genC20K3
 	runners["dir"] = runDir
@@ -40,7 +42,11 @@ func (t *quietT) FailNow() {
 }
 func (t *quietT) Log(args ...interface{}) {}
 
-func parseEntry(t *Toks) *gldap.Entry {
+// entries of one pool that carry the same values for an attribute are given
+// the SAME []string, as testdirectory.NewUsers does with WithMembersOf (every
+// user gets the caller's slice): what one entry's modification does must not
+// show in another entry
+func parseEntry(t *Toks, shared map[string][]string) *gldap.Entry {
 	dn := t.Str()
 	n := t.Int()
 	e := &gldap.Entry{DN: dn}
@@ -50,6 +56,12 @@ func parseEntry(t *Toks) *gldap.Entry {
 		if vals == nil {
 			vals = []string{}
 		}
+		key := name + "\x00" + strings.Join(vals, "\x00")
+		if v, ok := shared[key]; ok && len(vals) > 0 {
+			vals = v
+		} else if shared != nil {
+			shared[key] = vals
+		}
 		e.Attributes = append(e.Attributes, gldap.NewEntryAttribute(name, vals))
 	}
 	return e
@@ -58,8 +70,9 @@ func parseEntry(t *Toks) *gldap.Entry {
 func parseEntries(t *Toks) []*gldap.Entry {
 	n := t.Int()
 	es := make([]*gldap.Entry, 0, n)
+	shared := map[string][]string{}
 	for i := 0; i < n; i++ {
-		es = append(es, parseEntry(t))
+		es = append(es, parseEntry(t, shared))
 	}
 	return es
 }
@@ -171,6 +184,18 @@ func runDir(t *Toks) string {
 		case "setanon":
 			td.SetAllowAnonymousBind(t.Bool())
 			out = append(out, "R 0 0")
+		case "users":
+			// the Users() getter: what the directory says its user entries are now
+			us := td.Users()
+			parts := make([]string, len(us))
+			for k, e := range us {
+				as := make([]string, len(e.Attributes))
+				for j, a := range e.Attributes {
+					as[j] = hxs(a.Name) + " " + hexList(a.Values)
+				}
+				parts[k] = hxs(e.DN) + " " + listStr(as)
+			}
+			out = append(out, "R 0 "+listStr(parts))
 		}
 	}
 	if qt.failed {
@@ -211,6 +236,9 @@ func (g *Gen) userEntry(n string) string {
 	}
 	if r.Chance(20) {
 		attrs = append(attrs, [2]interface{}{"description", []string{"d1", "d2"}})
+	}
+	if r.Chance(50) {
+		attrs = append(attrs, [2]interface{}{"memberOf", []string{"admin", "dev"}})
 	}
 	return entryStr2(userDNOf(n), attrs)
 }
@@ -255,7 +283,7 @@ func (g *Gen) dirOp() string {
 			if r.Chance(5) {
 				op = 3
 			}
-			ty := r.Pick([]string{"email", "description", "name", "phone"})
+			ty := r.Pick([]string{"email", "description", "name", "phone", "memberOf"})
 			var vals []string
 			for j := r.Intn(4); j > 0; j-- {
 				vals = append(vals, hxs(r.Pick([]string{"v1", "v2", "new@example.org", "x"})))
@@ -296,6 +324,37 @@ func (g *Gen) dirOp() string {
 	}
 }
 
+// users built the way NewUsers(..., WithMembersOf(...)) builds them: every
+// user carries the same value list.  Each modification of one user is followed
+// by a look at all the others
+func genC20Shared(g *Gen) {
+	r := g.rng
+	for i := 0; i < g.n; i++ {
+		names := userNames[:2+r.Intn(3)]
+		var us []string
+		for _, n := range names {
+			us = append(us, entryStr2(userDNOf(n), [][2]interface{}{{"name", []string{n}}, {"memberOf", []string{"admin", "dev"}}, {"description", []string{"d1", "d2", "d3"}}}))
+		}
+		var ops []string
+		lookAll := func() {
+			for _, n := range names {
+				ops = append(ops, "search "+hxs(userDNOf(n))+" "+hxs("(objectClass=*)"))
+			}
+		}
+		for s := 2 + r.Intn(4); s > 0; s-- {
+			n := r.Pick(names)
+			ty := r.Pick([]string{"memberOf", "description"})
+			var vals []string
+			for j := r.Intn(4); j > 0; j-- {
+				vals = append(vals, hxs(r.Pick([]string{"ops", "qa", "x", "v2"})))
+			}
+			ops = append(ops, fmt.Sprintf("modify %s 1 %d %s %s", hxs(userDNOf(n)), []int{2, 2, 0, 1}[r.Intn(4)], hxs(ty), listStr(vals)))
+			lookAll()
+		}
+		g.emit("dir", hxs(dirUserDN), hxs(dirGroupDN), "0", listStr(us), "0", listStr(ops))
+	}
+}
+
 func genC20(g *Gen) {
 	r := g.rng
 	for i := 0; i < g.n; i++ {
@@ -314,9 +373,14 @@ func genC20(g *Gen) {
 		if g.tier == "thorough" {
 			nops = 5 + r.Intn(36)
 		}
-		ops := make([]string, nops)
-		for j := range ops {
-			ops[j] = g.dirOp()
+		var ops []string
+		for j := 0; j < nops; j++ {
+			op := g.dirOp()
+			ops = append(ops, op)
+			if strings.HasPrefix(op, "modify ") && r.Chance(60) {
+				// what a modification of one entry does to the others: look at another user
+				ops = append(ops, "search "+hxs(userDNOf(r.Pick(userNames)))+" "+hxs("(objectClass=*)"))
+			}
 		}
 		g.emit("dir", hxs(dirUserDN), hxs(dirGroupDN), b01(r.Chance(20)), listStr(us), listStr(gs), listStr(ops))
 	}
@@ -369,6 +433,67 @@ func genC19(g *Gen) {
 			}
 		}
 		g.emit("dir", hxs(dirUserDN), hxs(dirGroupDN), b01(r.Bool()), listStr(us), "0", listStr(ops))
+	}
+}
+
+// C19 over histories: binds, then operations that change the user set (adds,
+// deletes by the exact DN and by a DN that only the directory's matcher takes
+// for the entry, SetUsers), each followed by the Users() probe and by binds as
+// the users that were there before and are there now
+func genC19Hist(g *Gen) {
+	r := g.rng
+	names := []string{"alice", "bob", "carol"}
+	pwOf := func(n string) string { return "pw-" + n }
+	for i := 0; i < g.n; i++ {
+		var us []string
+		present := map[string]bool{}
+		for _, n := range names {
+			if r.Chance(70) {
+				us = append(us, entryStr2(userDNOf(n), [][2]interface{}{{"name", []string{n}}, {"password", []string{pwOf(n)}}}))
+				present[n] = true
+			}
+		}
+		bindAll := func(ops []string) []string {
+			for _, n := range names {
+				ops = append(ops, "bind "+hxs(userDNOf(n))+" "+hxs(pwOf(n)))
+				if r.Chance(30) {
+					ops = append(ops, "bind "+hxs(userDNOf(n))+" "+hxs("wrong"))
+				}
+			}
+			return ops
+		}
+		var ops []string
+		if r.Chance(80) {
+			ops = bindAll(ops)
+		}
+		steps := 2 + r.Intn(5)
+		for s := 0; s < steps; s++ {
+			n := r.Pick(names)
+			switch r.Intn(6) {
+			case 0:
+				ops = append(ops, "add "+hxs(userDNOf(n))+" "+listStr([]string{hxs("name") + " 1 " + hxs(n), hxs("password") + " 1 " + hxs(pwOf(n))}))
+			case 1:
+				ops = append(ops, "delete "+hxs(userDNOf(n)))
+			case 2: // the RDN only: no entry has this DN, the directory's matcher may still find one
+				ops = append(ops, "delete "+hxs("cn="+n))
+			case 3: // a differently-cased spelling
+				ops = append(ops, "delete "+hxs(strings.ToUpper(userDNOf(n)[:2])+userDNOf(n)[2:]))
+			case 4:
+				var es []string
+				for _, m := range names {
+					if r.Chance(50) {
+						es = append(es, entryStr2(userDNOf(m), [][2]interface{}{{"password", []string{pwOf(m)}}}))
+					}
+				}
+				ops = append(ops, "setusers "+listStr(es))
+			default:
+				ops = append(ops, "modify "+hxs(userDNOf(n))+" 1 2 "+hxs("password")+" 1 "+hxs("new-"+n))
+				ops = append(ops, "users", "bind "+hxs(userDNOf(n))+" "+hxs("new-"+n))
+			}
+			ops = append(ops, "users")
+			ops = bindAll(ops)
+		}
+		g.emit("dir", hxs(dirUserDN), hxs(dirGroupDN), b01(r.Chance(30)), listStr(us), "0", listStr(ops))
 	}
 }
 
